@@ -30,6 +30,20 @@ Proof.
 Qed.
 Print Assumptions C15_collect.
 
+(* a callback keeps no memory of an earlier stop: feeding a second sequence into the sink as the first feed left it is again [C15_feed] — the
+   closure decides anew for every item (the tie: the refeed cases '2 stop method n items..' of run_case15, fed by the harness's kind 3) *)
+Theorem C15_refeed : forall xs ys s,
+  let s1 := fst (fst (feed_into_mut xs s)) in
+  let off2 := offered (kind s) (length (got s1)) ys in
+  kind s1 = kind s /\
+  feed_into_mut ys s1 = (mksink (kind s) (got s1 ++ off2), length off2, skipn (length off2) ys).
+Proof.
+  intros xs ys s. destruct (C15_feed xs s) as (E1 & _). cbn zeta. rewrite E1. cbn [fst kind got].
+  split; [reflexivity|]. destruct (C15_feed ys (mksink (kind s) (got s ++ offered (kind s) (length (got s)) xs))) as (E2 & _).
+  cbn [kind got] in E2. exact E2.
+Qed.
+Print Assumptions C15_refeed.
+
 (* a closure that says stop on its k-th call (k>0) receives exactly the first k items *)
 Theorem C15_stop : forall items k, (0 < k)%nat ->
   feed_into_mut items (mksink (SClosure k) []) =
